@@ -87,7 +87,7 @@ V = [
     ('internal/context.go', "\ts := make([]issue.Location, len(c.stack))\n\tcopy(s, c.stack)\n", "\ts := c.stack[:len(c.stack):len(c.stack)]\n")),
  ('V3 getg keeps the low 20 bits of the id', 'fire') + edit(
     ('threadlocal/gid.go', "\treturn n\n}", "\treturn n&0xfffff + 1\n}")),
- ('V4 DoWithParent(context) makes the parent itself current (no fork)', 'fire') + edit(
+ ('V4 DoWithParent(context) makes the parent itself current (no fork) [go test fails: not a valid mutant]', 'fire') + edit(
     ('internal/runtime.go', "\t\tctx := ec.Fork()\n\t\tpx.DoWithContext(ctx, actor)", "\t\tpx.DoWithContext(ec, actor)")),
  ('V5 getg reads the stack header through 17 bytes', 'fire') + edit(
     ('threadlocal/gid.go', "\tvar buf [64]byte\n\n\tl := runtime.Stack(buf[:64], false)", "\tvar buf [17]byte\n\n\tl := runtime.Stack(buf[:], false)")),
